@@ -35,3 +35,33 @@ pub const FG_WINDOW_1024: &[(u64, &str)] = &[
 pub fn fg_window(n: usize) -> &'static [(u64, &'static str)] {
     if n == 512 { FG_WINDOW_512 } else { FG_WINDOW_1024 }
 }
+
+/// Strings whose SHAKE-256 stream is extreme for Algorithm 3 (HashToPoint), found by an offline search over 4 * 10^8 candidates
+/// (`drive h2psearch`): string i is `format!("{:040}corpus message", i)`, i.e. a 40-byte salt of ASCII digits followed by the message
+/// "corpus message".  A random string has 36 +- 6 rejected chunks among its first 576 and runs of at most 3-4 rejected chunks.
+pub const H2P_EXTREME: &[(u64, &str)] = &[
+    (71425893, "h2p-74-rejected-of-first-576"),
+    (385518862, "h2p-run-of-10-rejected"),
+    (8523530, "h2p-run-of-8-rejected-in-512-stream"),
+    (154838726, "h2p-74-rejected-of-first-576"),
+    (29475374, "h2p-run-of-9-rejected"),
+    (4832260, "h2p-73-rejected-of-first-576"),
+    (149919089, "h2p-73-rejected-of-first-576"),
+    (11685642, "h2p-run-of-8-rejected-in-512-stream"),
+    (241657044, "h2p-73-rejected-of-first-576"),
+    (342138367, "h2p-73-rejected-of-first-576"),
+    (80586863, "h2p-run-of-9-rejected"),
+    (33378500, "h2p-run-of-8-rejected-in-512-stream"),
+];
+pub const H2P_MSG: &[u8] = b"corpus message";
+pub fn h2p_salt(i: u64) -> [u8; 40] {
+    let s = format!("{:040}", i).into_bytes();
+    let mut a = [0u8; 40];
+    a.copy_from_slice(&s);
+    a
+}
+pub fn h2p_string(i: u64) -> Vec<u8> {
+    let mut v = h2p_salt(i).to_vec();
+    v.extend_from_slice(H2P_MSG);
+    v
+}
